@@ -281,11 +281,11 @@ def run_side(cmd_prefix, cases, tag, timeout=1200):
                 pass
 
 
-def run_parallel(cmd_prefix, cases, tag, shards=16, timeout=1200):
-    """shard a large case list over several processes"""
+def run_parallel(cmd_prefix, cases, tag, shards=16, timeout=1200, min_cases=2000):
+    """shard a large case list (at least min_cases lines) over several processes"""
     import concurrent.futures
     n = len(cases)
-    if n < 2000 or shards <= 1:
+    if n < min_cases or shards <= 1:
         return run_side(cmd_prefix, cases, tag, timeout)
     size = (n + shards - 1) // shards
     parts = [cases[i:i + size] for i in range(0, n, size)]
